@@ -98,7 +98,7 @@ const (
 func (f *fsm) cleanup() {
 	if f.cancelDialFn != nil {
 		f.cancelDialFn()
-		<-f.dialResultCh
+		f.discardDialResult()
 	}
 	f.cleanupConnAndReader()
 	for _, t := range []*time.Timer{f.connectRetryTimer, f.holdTimer,
@@ -106,6 +106,15 @@ func (f *fsm) cleanup() {
 		if t != nil {
 			t.Stop()
 		}
+	}
+}
+
+// discardDialResult waits for the dial goroutine to finish. The dial may have
+// succeeded before it was canceled, in which case its connection is closed.
+func (f *fsm) discardDialResult() {
+	dr := <-f.dialResultCh
+	if dr != nil && dr.conn != nil {
+		dr.conn.Close()
 	}
 }
 
@@ -318,7 +327,7 @@ func (f *fsm) connect() fsmState {
 		select {
 		case <-f.closeCh:
 			f.cancelDialFn()
-			<-f.dialResultCh
+			f.discardDialResult()
 			f.connectRetryTimer.Stop()
 			return disabledState
 		case dr := <-f.dialResultCh:
